@@ -96,8 +96,10 @@ type Conn struct {
 	Cursor     int  // script-side read cursor into Frames
 	FirstWrite time.Duration
 	Dial       *DialRec
-	ownerTask  string // task that made the first write (the FSM that owns the conn)
-	OpenCBs    int    // OnOpenMessage callbacks attributed to this connection
+	Tainted    bool            // the remote (or the plugin) misbehaved on this connection
+	RecvTimes  []time.Duration // completion times of deliveries
+	ownerTask  string          // task that made the first write (the FSM that owns the conn)
+	OpenCBs    int             // OnOpenMessage callbacks attributed to this connection
 	OpenSentAt time.Duration
 	OpenSeq    uint64
 }
@@ -273,6 +275,7 @@ func (c *Conn) Deliver(b []byte) {
 	}
 	c.rbuf = append(c.rbuf, b...)
 	c.Delivered += len(b)
+	c.RecvTimes = append(c.RecvTimes, c.w.Now())
 	c.wakeReader()
 	c.mu.Unlock()
 	c.w.Ev("%s deliver %d bytes: %x", c, len(b), clip(b, 32))
@@ -286,6 +289,9 @@ func (c *Conn) FIN() {
 		return
 	}
 	c.rFIN = true
+	if !c.LClosed {
+		c.Tainted = true
+	}
 	c.RFinAt = c.w.Now()
 	c.wakeReader()
 	c.mu.Unlock()
@@ -301,6 +307,9 @@ func (c *Conn) RST() {
 		return
 	}
 	c.rRST = true
+	if !c.LClosed {
+		c.Tainted = true
+	}
 	c.rbuf = nil
 	c.RFinAt = c.w.Now()
 	c.wakeReader()
@@ -765,6 +774,8 @@ func (n *Net) dial(ctx context.Context, d *net.Dialer, network, address string) 
 	c := rec.conn
 	rec.mu.Unlock()
 	if dec == 1 {
+		// the TCP handshake completed; the dialler returns it when next scheduled
+		simrt.Yield("dial.connected")
 		c.Handed = true
 		return n.dialRet(rec, c, nil, "conn")
 	}
